@@ -684,7 +684,7 @@ func (p *CPU) execInst(bus *device.Bus, as abi.As, arg *abi.AsRawArgument) error
 			p.RegX[arg.Rd] = LAUInt(int64(int32(p.RegX[arg.Rs1]) >> uint(arg.Imm)))
 			return nil
 		case loong64.ASRLI_W:
-			p.RegX[arg.Rd] = LAUInt(int64(uint32(p.RegX[arg.Rs1]) >> uint(arg.Imm)))
+			p.RegX[arg.Rd] = LAUInt(int64(int32(uint32(p.RegX[arg.Rs1]) >> uint(arg.Imm))))
 			return nil
 		}
 	case loong64.OpFormatType_2R_ui6:
@@ -708,7 +708,7 @@ func (p *CPU) execInst(bus *device.Bus, as abi.As, arg *abi.AsRawArgument) error
 		case loong64.AADDI_D:
 			panic("TODO")
 		case loong64.AADDI_W:
-			p.RegX[arg.Rd] = p.RegX[arg.Rs1] + LAUInt(arg.Imm)
+			p.RegX[arg.Rd] = LAUInt(int64(int32(p.RegX[arg.Rs1]) + arg.Imm))
 			return nil
 		case loong64.ALD_B:
 			panic("TODO")
@@ -822,7 +822,7 @@ func (p *CPU) execInst(bus *device.Bus, as abi.As, arg *abi.AsRawArgument) error
 		default:
 			return fmt.Errorf("unsupport: %s", loong64.AsString(as, ""))
 		case loong64.APCADDU12I:
-			p.RegX[arg.Rd] = curPC + LAUInt(arg.Imm)
+			p.RegX[arg.Rd] = curPC + LAUInt(int64(arg.Imm)<<12)
 			return nil
 		case loong64.ALU12I_W:
 			p.RegX[arg.Rd] = LAUInt(arg.Imm << 12)
@@ -1126,7 +1126,7 @@ func (p *CPU) execInst(bus *device.Bus, as abi.As, arg *abi.AsRawArgument) error
 			return fmt.Errorf("unsupport: %s", loong64.AsString(as, ""))
 
 		case loong64.ABEQ:
-			if p.RegX[arg.Rs1] == p.RegX[arg.Rs2] {
+			if p.RegX[arg.Rs1] == p.RegX[arg.Rd] {
 				p.PC = curPC + LAUInt(arg.Imm)
 			}
 			return nil
@@ -1135,14 +1135,14 @@ func (p *CPU) execInst(bus *device.Bus, as abi.As, arg *abi.AsRawArgument) error
 		case loong64.ABGEU:
 			panic("TODO")
 		case loong64.ABLT:
-			if int64(p.RegX[arg.Rs1]) < int64(p.RegX[arg.Rs2]) {
+			if int64(p.RegX[arg.Rs1]) < int64(p.RegX[arg.Rd]) {
 				p.PC = curPC + LAUInt(arg.Imm)
 			}
 			return nil
 		case loong64.ABLTU:
 			panic("TODO")
 		case loong64.ABNE:
-			if p.RegX[arg.Rs1] != p.RegX[arg.Rs2] {
+			if p.RegX[arg.Rs1] != p.RegX[arg.Rd] {
 				p.PC = curPC + LAUInt(arg.Imm)
 			}
 			return nil
